@@ -164,6 +164,16 @@ Theorem lookup_order_strict_refuted :
 Proof. exact lookup_strict_refuted_p. Qed.
 Print Assumptions lookup_order_strict_refuted.
 
+(* why the previous theorems are stated for the shipped universe and decided by enumeration: in an arbitrary
+   well-formed universe lookup_order need not terminate.  Witness: a 5-dimension acyclic universe (q; s; p requires
+   q; r requires s implies p; t requires p implies s), group {r, t}.  Reproduced on the real DimensionGroup by the
+   correspondence run (the implementation does not return either). *)
+Theorem lookup_order_generic_refuted :
+  build raw_deadlock = Some u_deadlock /\ wf_universe u_deadlock = true /\ deps_are_dimensions u_deadlock = true
+  /\ exists g, mkgroup u_deadlock ["r"; "t"] = GOk g /\ glookup g = GOutOfFuel.
+Proof. exact lookup_generic_refuted_p. Qed.
+Print Assumptions lookup_order_generic_refuted.
+
 (* ---- non-vacuity: the hypotheses are satisfiable by the real universe and a real group ---- *)
 Example wf_current : wf_universe u_current = true.
 Proof. exact current_wf_p. Qed.
